@@ -76,7 +76,7 @@ pub trait Tab: Sized + Clone + Eq + Ord + Hash + 'static {
     fn rel(&self, o: &Self, form: &str) -> serde_json::Value;
 }
 
-pub fn iter_prog_on<T: Tab, I: Iterator<Item = T>>(mut it: I, ks: &[usize], tail: &str) -> serde_json::Value {
+pub fn iter_prog_on<T: Tab + Ord, I: Iterator<Item = T>>(mut it: I, ks: &[usize], tail: &str) -> serde_json::Value {
     use serde_json::json;
     let item = |x: Option<T>| match x {
         Some(t) => json!({"some": true, "t": crate::exec::enc(&t)}),
@@ -86,6 +86,9 @@ pub fn iter_prog_on<T: Tab, I: Iterator<Item = T>>(mut it: I, ks: &[usize], tail
     let t = match tail {
         "count" => json!({"count": crate::exec::bits_of(it.count() as u64)}),
         "last" => json!({"last": item(it.last())}),
+        "fold" => json!({"count": crate::exec::bits_of(it.fold(0u64, |a, _| a + 1))}),
+        "min" => json!({"last": item(it.min())}),
+        "max" => json!({"last": item(it.max())}),
         "hint" => {
             let (lo, hi) = it.size_hint();
             json!({"lo": crate::exec::bits_of(lo as u64), "has_hi": hi.is_some(), "hi": crate::exec::bits_of(hi.unwrap_or(0) as u64)})
